@@ -210,23 +210,27 @@ MutationsAt(d, ls, i) ==
                 body == Drop(l.text, Len(ind))
             IN  {Mut(ReplaceAt(ls, i, ind \o BadValues[j]), i, BadValueRule(BadValues[j])) : j \in 1..Len(BadValues)}
                 \cup {Mut(ReplaceAt(ls, i, w \o body), i, "indentation")
-                        : w \in IF isFirstIndented THEN wrongFirst \cap (wrong \cup {"      "}) ELSE wrong}
+                        : w \in IF isFirstIndented THEN wrongFirst ELSE wrong}
                 \cup {Mut(ReplaceAt(ls, i, body), i, "indentation") : x \in IF isFirstIndented THEN {} ELSE {1}}
       [] l.k = "cont" ->
-            {Mut(ReplaceAt(ls, i, ind \o ind \o NBSP), i, "entry-summary-blank"),
-             Mut(ReplaceAt(ls, i, ind \o ind \o IDSP \o NBSP), i, "entry-summary-blank")}
+            (* a continuation line of blank characters only: a violation under every reading, but which *)
+            (* line is the first bad one depends on the reading (DESIGN 3.4): claimed as "unspecified"  *)
+            {Mut(ReplaceAt(ls, i, ind \o ind \o NBSP), 0, "unspecified"),
+             Mut(ReplaceAt(ls, i, ind \o ind \o IDSP \o NBSP), 0, "unspecified")}
       [] l.k = "blank" -> {}
+
+RecEol(d, l) == IF l.rec > 0 THEN d.recs[l.rec].eol ELSE IF d.recs # <<>> THEN d.recs[1].eol ELSE LF
 
 (* a blank line inside a record: the line after it starts a new block that is not a record *)
 BlankInside(d, ls, i) ==
     IF ls[i].k \in {"entry", "cont"} \/ (ls[i].k = "rsum" /\ ~ParseDate(Take(ls[i].text, FindIn(ls[i].text, 1, SpTab) - 1)).ok)
-    THEN {Mut(InsertAt(ls, i, L(b, ls[i].eol, "blank", ls[i].rec)), i + 1,
+    THEN {Mut(InsertAt(ls, i, L(b, RecEol(d, ls[i]), "blank", ls[i].rec)), i + 1,
               IF ls[i].k = "rsum" THEN "date" ELSE "headline-indented") : b \in {"", "  ", TAB}}
     ELSE {}
 
 (* stray text that is not a record: as its own block before line i (i = Len+1: at the end) *)
 Stray(d, ls, i) ==
-    LET eol == IF ls = <<>> THEN LF ELSE ls[Min(i, Len(ls))].eol
+    LET eol == IF ls = <<>> THEN LF ELSE RecEol(d, ls[Min(i, Len(ls))])
         okPos == i = 1 \/ i = Len(ls) + 1 \/ (ls[i].k = "head" /\ ls[i - 1].k = "blank")
         pre == IF i = Len(ls) + 1 /\ ls # <<>> /\ ls[Len(ls)].k # "blank"
                THEN <<L("", eol, "blank", 0)>> ELSE <<>>
